@@ -12,7 +12,7 @@ Hypothesis KL : cfield_laws K.
    any exposure subset — the power leaving through all free pins is at most the power entering *)
 Theorem C08_solve_passive (net : netlist K) sched T :
   solve net sched = Ok T ->
-  (forall c, In c (comps net) -> mx_passive K (c_n c) (c_S c)) ->
+  (forall L, In L (comps net) -> mx_passive K (length (l_pins L)) (l_S L)) ->
   forall u, fnonneg K (fsub K (lsum K (l_pins T) (fun p => pw K (ext (expo net) u p)))
                               (lsum K (l_pins T) (fun p => pw K (outw K T (ext (expo net) u) p)))).
 Proof. exact (solve_passive K KL net sched T). Qed.
@@ -21,7 +21,7 @@ Proof. exact (solve_passive K KL net sched T). Qed.
    (with all free pins exposed, ext u = u on the result's pins: the result is an isometry) *)
 Theorem C08_solve_lossless (net : netlist K) sched T :
   solve net sched = Ok T ->
-  (forall c, In c (comps net) -> mx_lossless K (c_n c) (c_S c)) ->
+  (forall L, In L (comps net) -> mx_lossless K (length (l_pins L)) (l_S L)) ->
   forall u, feq K (lsum K (l_pins T) (fun p => pw K (ext (expo net) u p)))
                   (lsum K (l_pins T) (fun p => pw K (outw K T (ext (expo net) u) p))).
 Proof. exact (solve_lossless K KL net sched T). Qed.
@@ -29,15 +29,15 @@ Proof. exact (solve_lossless K KL net sched T). Qed.
 (* all components reciprocal (S = S^T): so is the circuit *)
 Theorem C08_solve_reciprocal (net : netlist K) sched T :
   solve net sched = Ok T ->
-  (forall c, In c (comps net) -> mx_reciprocal K (c_n c) (c_S c)) ->
+  (forall L, In L (comps net) -> mx_reciprocal K (length (l_pins L)) (l_S L)) ->
   forall p q, In p (l_pins T) -> In q (l_pins T) -> feq K (coeff T p q) (coeff T q p).
 Proof. exact (solve_reciprocal K KL net sched T). Qed.
 
 (* the same facts for arbitrary wave solutions, independent of any solving algorithm *)
 Theorem C08_network_passive (net : netlist K) u a b :
-  NoDup (conn_ends (conns net)) -> NoDup (allpins (map lst_of_comp (comps net))) ->
-  (forall p, In p (conn_ends (conns net)) -> In p (allpins (map lst_of_comp (comps net)))) ->
-  (forall c, In c (comps net) -> mx_passive K (c_n c) (c_S c)) ->
+  NoDup (conn_ends (conns net)) -> NoDup (allpins (comps net)) ->
+  (forall p, In p (conn_ends (conns net)) -> In p (allpins (comps net))) ->
+  (forall L, In L (comps net) -> mx_passive K (length (l_pins L)) (l_S L)) ->
   wave_solution net u a b ->
   fnonneg K (lsum K (free_pins K net) (pflux K a b)).
 Proof. exact (network_passive K KL net u a b). Qed.
